@@ -317,7 +317,7 @@ impl Prop for C11 {
                         let tol = if proj { 1e-9 } else { 0.0 };
                         for k in 0..w.1.len() {
                             let (wv, av, bv, pv) = (f64::from_bits(w.1[k]), f64::from_bits(a.1[k]), f64::from_bits(b.1[k]), f64::from_bits(pr.1[k]));
-                            if (wv - (av + bv)).abs() > tol {
+                            if differs(wv, av + bv, tol) {
                                 out.violate(
                                     "additivity",
                                     format!("C11 L1 spectrum(A||B) != spectrum(A)+spectrum(B) projection={proj}"),
@@ -325,7 +325,7 @@ impl Prop for C11 {
                                 );
                                 break;
                             }
-                            if (wv - pv).abs() > tol {
+                            if differs(wv, pv, tol) {
                                 out.violate(
                                     "permutation",
                                     format!("C11 L1 permuting records changes the spectrum projection={proj}"),
@@ -582,7 +582,7 @@ fn run_l2(callset: &CallSet, cfg: &Config, split: usize, perm: &[usize], contain
     let tol = if proj { 1e-9 + 2e-12 } else { 0.0 };
     for k in 0..p[0].1.len() {
         let (w, a, b, q) = (p[0].1[k], p[1].1[k], p[2].1[k], p[3].1[k]);
-        if (w - (a + b)).abs() > tol {
+        if differs(w, a + b, tol) {
             out.violate(
                 "additivity",
                 format!("C11 L2 create(A||B) != create(A)+create(B) projection={proj}"),
@@ -590,7 +590,7 @@ fn run_l2(callset: &CallSet, cfg: &Config, split: usize, perm: &[usize], contain
             );
             return;
         }
-        if (w - q).abs() > tol {
+        if differs(w, q, tol) {
             out.violate(
                 "permutation",
                 format!("C11 L2 permuting records changes the output projection={proj}"),
@@ -599,4 +599,10 @@ fn run_l2(callset: &CallSet, cfg: &Config, split: usize, perm: &[usize], contain
             return;
         }
     }
+}
+
+/// true unless the two values agree within the tolerance; written so that a NaN on one side only
+/// counts as a difference (NaN on both sides is the same outcome)
+fn differs(a: f64, b: f64, tol: f64) -> bool {
+    a != b && !((a - b).abs() <= tol) && !(a.is_nan() && b.is_nan())
 }
